@@ -98,6 +98,9 @@ SlipsRefused ==
               /\ ~(cmd.sub = "hash" /\ cmd.what = "typeddata")) => s.err # ""
         /\ m.k = "surplus" => s.err # ""
         /\ (m.k = "acct_late" /\ \E k \in 1..4 : cmd.acct[OptOrder[k]].src = "flag" /\ InSeq(OptOrder[k], m.late)) => s.err # ""
+\* MUST FAIL (MC_Args_naive.cfg, run by `./check selftest models`): "every slip is refused" is false - a dropped flag or a
+\* repeated positional of `hex` leaves another well-formed line; SlipsRefused above names exactly the slips that are refused
+SlipsAlwaysRefused == (done /\ ~Plain(cmd)) => s.err # ""
 Total == done => (s.err # "" \/ (s.pend = "" /\ ArgNode(s.path).subs = {} /\ Len(s.pos) >= ArgNode(s.path).lo))
 ErrSticky == [][s.err # "" => s'.err # ""]_vars
 Terminates == <>done
